@@ -4,9 +4,9 @@ SPEC = {
     "coq_targets": ["theories/Network/Props_C01.vo", "theories/Network/Findings.vo", "theories/Network/Cases.vo"],
     "props": "theories/Network/Props_C01.v",
     "harness": [
-        {"bin": "h_network", "n": {"quick": 180, "thorough": 3000}, "args": ["--mode", "c01"], "known_bits": {16: "C01-peer-mac-over-beta-i"}},
-        {"bin": "h_segments", "n": {"quick": 90, "thorough": 1200}, "known_bits": {16: "C01-peer-mac-over-beta-i"}},
-        {"bin": "h_joinable", "n": {"quick": 120, "thorough": 2400}, "known_bits": {}},
+        {"bin": "h_network", "n": {"quick": 180, "thorough": 2400}, "args": ["--mode", "c01"], "known_bits": {16: "C01-peer-mac-over-beta-i"}},
+        {"bin": "h_segments", "n": {"quick": 90, "thorough": 1000}, "known_bits": {16: "C01-peer-mac-over-beta-i"}},
+        {"bin": "h_joinable", "n": {"quick": 120, "thorough": 1800}, "known_bits": {}},
     ],
     "shard_eval": "coqtop",
     "rule": "h_network: every case = pocketscion topology (directed shortcut/peering/on-path/multi-core/two-ISD shapes, sampled small DAG family with permuted interface numbering, random up to 12 [20] ASes) + one path offered by SegmentRegistry::paths (real registry, real combinator) or the reverse of the packet that arrived; oracle: the reference router delivers it at the destination crossing exactly the metadata's interfaces, and the reply over the reversed arrived path reaches the sender. h_segments: every segment the real control plane builds for sampled AS pairs (random SegID, expiry), every MAC recomputed by the beacon model; h_joinable: for sampled ordered AS pairs, the AS sequences of the segments the control plane lists for the pair and the number of paths SegmentRegistry::paths offers; oracle Spec.joinable (specification rules without peering) implies offered > 0; non-trivial = at least 2 hop fields / AS entries / one segment; distinct by full case text",
